@@ -157,9 +157,9 @@ def c_from_value(ex, st, key, argv, dest_ty, raw):
 
 def check(L, tier, log, samples):
     t0 = time.time()
-    events = 3 if tier == "quick" else 5
+    events = 3 if tier == "quick" else 4
     polls = 3 if tier == "quick" else 4
-    maxchunk = 3 if tier == "quick" else 4
+    maxchunk = 3
     con = [
         (r"^BufRecvStream::poll_read$", c_poll_read(events, maxchunk)),
         (r"^BufRecvStream::buf_mut$", C.c_opaque),
